@@ -91,7 +91,7 @@ def _snap_buffer(arr, path, S, memo, tag='values', with_base=True):
     if with_base:
         base = _ultimate_base(a)
         if base is not None and base.size != a.size and id(base) not in memo:
-            memo.add(id(base))
+            memo[id(base)] = base
             b = _plain(base)
             if not b.dtype.hasobject:
                 S.leaves[(path, 'base_' + tag)] = (str(b.dtype), tuple(b.shape), _crc(b))
@@ -107,21 +107,27 @@ def _snap_array(a, path, S, memo):
         _snap_buffer(np.ma.getdata(a), path, S, memo)
         m = a._mask
         if m is np.ma.nomask:
-            S.leaves[(path, 'mask')] = 'nomask'
+            S.leaves[(path, 'mask')] = ('nothing-masked', tuple(a.shape))
+        elif m.dtype == bool and not m.any():
+            # `nomask` and an all-False mask array are the same mask (numpy densifies nomask on `mask |= ...`)
+            S.leaves[(path, 'mask')] = ('nothing-masked', tuple(np.shape(m)))
         else:
             S.leaves[(path, 'mask')] = (tuple(np.shape(m)), _crc(np.asarray(m)))
+        if m is not np.ma.nomask:
             mm = np.asarray(m)
             S.nbytes += mm.nbytes
             if mm.nbytes <= KEEP_COPY_BYTES and not mm.dtype.hasobject:
                 S.copies[(path, 'mask')] = mm.copy()
             base = _ultimate_base(mm)
             if base is not None and base.size != mm.size and id(base) not in memo:
-                memo.add(id(base))
+                memo[id(base)] = base
                 S.leaves[(path, 'base_mask')] = (tuple(base.shape), _crc(_plain(base)))
                 S.nbytes += base.nbytes
         d = np.ma.getdata(a)
         if isinstance(d, Quantity):
             S.leaves[(path, 'unit')] = str(d.unit)
+        # informational only (not one of "values, dtype, mask, units"): raw attribute, the property would set it
+        S.leaves[(path, 'fill_value')] = repr(getattr(a, '_fill_value', None))
         return
     if isinstance(a, Quantity):
         S.leaves[(path, 'unit')] = str(a.unit)
@@ -154,7 +160,7 @@ def _snap_table(t, path, S, memo, depth):
             except Exception:  # noqa: BLE001
                 pass
     try:
-        _snap(dict(t.meta), path + '.meta', S, memo, depth + 1, kind_override='meta')
+        _snap(t.meta, path + '.meta', S, memo, depth + 1, kind_override='meta')
     except Exception as exc:  # noqa: BLE001
         S.notes.append(f'meta:{type(exc).__name__}')
 
@@ -212,10 +218,13 @@ def _snap_model(m, path, S, memo, depth):
             pass
     # array-valued instance attributes (ImagePSF.data, GriddedPSFModel.data / grid_xypos ...)
     d = getattr(m, '__dict__', {})
+    tp = type(m)
     for k in sorted(d):
         v = d[k]
         if k.startswith('_') and k not in _MODEL_PRIVATE_ARRAYS:
             continue
+        if isinstance(getattr(tp, k, None), property):
+            continue                    # cached lazyproperty value, not a constructor input
         if isinstance(v, np.ndarray):
             _snap_array(v, f'{path}.{k}', S, memo)
         elif isinstance(v, (tuple, list)) and k in ('origin', 'oversampling'):
@@ -253,7 +262,11 @@ def _leaves(m):
 def _snap_nddata(n, path, S, memo, depth):
     S.leaves[(path, 'type')] = type(n).__name__
     _snap(n.data, path + '.data', S, memo, depth + 1)
-    if n.mask is not None:
+    if isinstance(n.mask, np.ndarray) and not isinstance(n.mask, np.ma.MaskedArray):
+        if id(n.mask) not in memo:
+            memo[id(n.mask)] = n.mask
+            _snap_buffer(n.mask, path + '.mask', S, memo, tag='mask')
+    elif n.mask is not None:
         _snap(n.mask, path + '.mask', S, memo, depth + 1, kind_override='mask')
     else:
         S.leaves[(path + '.mask', 'mask')] = None
@@ -267,7 +280,7 @@ def _snap_nddata(n, path, S, memo, depth):
         S.leaves[(path + '.uncertainty', 'type')] = None
     S.leaves[(path, 'unit')] = None if n.unit is None else str(n.unit)
     try:
-        _snap(dict(n.meta), path + '.meta', S, memo, depth + 1, kind_override='meta')
+        _snap(n.meta, path + '.meta', S, memo, depth + 1, kind_override='meta')
     except Exception:  # noqa: BLE001
         pass
 
@@ -317,7 +330,7 @@ def _snap(obj, path, S, memo, depth=0, kind_override=None):
             return
         if oid in memo:
             return
-        memo.add(oid)
+        memo[oid] = obj
         _snap_array(obj, path, S, memo)
         return
     if isinstance(obj, np.generic):
@@ -326,7 +339,7 @@ def _snap(obj, path, S, memo, depth=0, kind_override=None):
         return
     T = _photutils_types()
     if isinstance(obj, (list, tuple)):
-        memo.add(oid)
+        memo[oid] = obj
         S.leaves[(path, 'len')] = (type(obj).__name__, len(obj))
         if _is_scalar_seq(obj):
             S.leaves[(path, 'items')] = zlib.crc32(repr(obj).encode())
@@ -342,7 +355,7 @@ def _snap(obj, path, S, memo, depth=0, kind_override=None):
                 _snap(v, f'{path}[{i}]', S, memo, depth + 1)
         return
     if isinstance(obj, dict):
-        memo.add(oid)
+        memo[oid] = obj
         try:
             keys = sorted(obj, key=repr)
         except Exception:  # noqa: BLE001
@@ -356,30 +369,30 @@ def _snap(obj, path, S, memo, depth=0, kind_override=None):
                 _snap(v, f'{path}[{k!r}]', S, memo, depth + 1, kind_override=kind_override)
         return
     if isinstance(obj, T['Table']):
-        memo.add(oid)
+        memo[oid] = obj
         _snap_table(obj, path, S, memo, depth)
         return
     if isinstance(obj, T['Row']):
         return
     if isinstance(obj, T['Model']):
-        memo.add(oid)
+        memo[oid] = obj
         _snap_model(obj, path, S, memo, depth)
         return
     if isinstance(obj, T['NDData']):
-        memo.add(oid)
+        memo[oid] = obj
         _snap_nddata(obj, path, S, memo, depth)
         return
     if isinstance(obj, T['SkyCoord']):
-        memo.add(oid)
+        memo[oid] = obj
         _snap_skycoord(obj, path, S, memo, depth)
         return
     if isinstance(obj, T['Kernel']):
-        memo.add(oid)
+        memo[oid] = obj
         S.leaves[(path, 'type')] = type(obj).__name__
         _snap(obj.array, path + '.array', S, memo, depth + 1)
         return
     if isinstance(obj, T['Aperture']):
-        memo.add(oid)
+        memo[oid] = obj
         S.leaves[(path, 'type')] = type(obj).__name__
         d = obj.__dict__
         for n in getattr(obj, '_params', ()):
@@ -391,7 +404,7 @@ def _snap(obj, path, S, memo, depth=0, kind_override=None):
                     _snap(v, f'{path}.{n}', S, memo, depth + 1)
         return
     if isinstance(obj, T['SegmentationImage']):
-        memo.add(oid)
+        memo[oid] = obj
         S.leaves[(path, 'type')] = type(obj).__name__
         d = obj.__dict__
         if '_data' in d:
@@ -405,12 +418,12 @@ def _snap(obj, path, S, memo, depth=0, kind_override=None):
                 pass
         return
     if isinstance(obj, T['ApertureMask']):
-        memo.add(oid)
+        memo[oid] = obj
         S.leaves[(path, 'type')] = type(obj).__name__
         _snap(obj.__dict__.get('data'), path + '.data', S, memo, depth + 1)
         return
     if isinstance(obj, (T['EPSFStar'],)):
-        memo.add(oid)
+        memo[oid] = obj
         S.leaves[(path, 'type')] = type(obj).__name__
         d = obj.__dict__
         for k in ('_data', 'weights', 'mask', 'cutout_center', '_cutout_center', 'origin', 'flux', '_flux'):
@@ -422,7 +435,7 @@ def _snap(obj, path, S, memo, depth=0, kind_override=None):
                     _snap(v, f'{path}.{k.lstrip("_")}', S, memo, depth + 1)
         return
     if isinstance(obj, (T['EPSFStars'], T['LinkedEPSFStar'])):
-        memo.add(oid)
+        memo[oid] = obj
         S.leaves[(path, 'type')] = type(obj).__name__
         lst = obj.__dict__.get('_data')
         if isinstance(lst, (list, tuple)):
@@ -431,16 +444,52 @@ def _snap(obj, path, S, memo, depth=0, kind_override=None):
     # photutils objects that carry a retained set (constructed at top level earlier)
     ret = _retained_of(obj)
     if ret:
-        memo.add(oid)
+        memo[oid] = obj
         for name, o in ret:
             _snap(o, f'{path}.{name}', S, memo, depth + 1)
         return
     # everything else (estimators, sigma-clip, fitters, WCS, callables ...) is not monitored
 
 
+def ext_kind(o):
+    """Kinds that are monitored but are NOT in the property's enumeration (informational, never a verdict):
+    plain dicts (e.g. a `meta=` argument), EPSFStar(s) containers, ApertureMask objects."""
+    T = _photutils_types()
+    if isinstance(o, dict):
+        return 'dict'
+    if isinstance(o, (T['EPSFStar'], T['EPSFStars'], T['LinkedEPSFStar'])):
+        return 'epsfstars'
+    if isinstance(o, T['ApertureMask']):
+        return 'aperturemask'
+    if isinstance(o, (list, tuple)):
+        core = (np.ndarray, T['Table'], T['Model'], T['NDData'], T['SkyCoord'], T['Kernel'], T['Aperture'],
+                T['SegmentationImage'])
+        for v in o[:200]:
+            if isinstance(v, _SCALARS) or isinstance(v, core):
+                continue
+            if isinstance(v, (list, tuple)):
+                if ext_kind(v):
+                    return 'object_list'
+                continue
+            return 'object_list'      # list of isophotes, ePSF stars, catalogues ...: not an enumerated kind
+    return None
+
+
+def reachable_ids(obj):
+    """ids of every object the snapshot of `obj` visits (arrays, their ultimate bases, containers)."""
+    memo = {}
+    try:
+        _snap(obj, '', Snap(), memo)
+    except Exception:  # noqa: BLE001
+        pass
+    out = {i for i, o in memo.items() if isinstance(o, np.ndarray)}
+    out.add(id(obj))
+    return out
+
+
 def snapshot(named):
     """named: list of (name, obj) -> {name: Snap}."""
-    memo = set()
+    memo = {}        # id -> object: keeps every visited (also temporary) object alive so ids stay unique
     out = {}
     for name, obj in named:
         S = Snap()
@@ -496,10 +545,8 @@ def diff(s0, s1, live=None):
             if key in s0.copies and key in s1.copies and isinstance(s0.copies[key], np.ndarray):
                 det.update(_where(s0.copies[key], s1.copies[key]))
             out.append({'subpath': key[0], 'kind': kind, 'detail': det})
-    for key in k1:
-        if key not in k0:
-            out.append({'subpath': key[0], 'kind': key[1] if key[1] in ('mask', 'meta') else 'structure',
-                        'detail': {'leaf': key[1], 'before': 'absent', 'after': repr(k1[key])[:120]}})
+    # leaves that exist only afterwards are lazily created attributes / caches: containers report growth
+    # through their own 'len' / 'keys' / 'columns' / 'meta' leaves, so nothing is lost by ignoring them here
     # a dtype/shape change implies a values change: keep one record per subpath, most specific first
     order = {'dtype': 0, 'shape': 1, 'unit': 2, 'type': 3}
     out.sort(key=lambda d: (d['subpath'], order.get(d['kind'], 9)))
@@ -528,11 +575,12 @@ def _monitorable(o, depth=0):
         return False
     if isinstance(o, np.ndarray):
         return True
-    if isinstance(o, (list, tuple)):
-        return depth < 3 and any(_monitorable(v, depth + 1) for v in o[:50]) or (
-            isinstance(o, list) and len(o) > 0)
+    if isinstance(o, list):
+        return len(o) > 0
+    if isinstance(o, tuple):
+        return depth < 3 and any(_monitorable(v, depth + 1) for v in o[:50])
     if isinstance(o, dict):
-        return depth < 3 and any(_monitorable(v, depth + 1) for v in list(o.values())[:50])
+        return len(o) > 0
     T = _photutils_types()
     if isinstance(o, (T['Table'], T['Model'], T['NDData'], T['SkyCoord'], T['Kernel'], T['Aperture'],
                       T['SegmentationImage'], T['ApertureMask'], T['EPSFStar'], T['EPSFStars'],
@@ -623,8 +671,7 @@ def _is_exempt(self_obj, name, kind):
 
 def _self_kind(o):
     T = _photutils_types()
-    return isinstance(o, (T['Aperture'], T['SegmentationImage'], T['Model'], T['NDData'],
-                          T['ApertureMask'], T['EPSFStar'], T['EPSFStars'], T['LinkedEPSFStar']))
+    return isinstance(o, (T['Aperture'], T['SegmentationImage'], T['Model'], T['NDData']))
 
 
 def begin(context=None):
@@ -775,6 +822,20 @@ def _after(defn, kind, name, rec, raised, result, has_self, args):
                 _attach_result(result, inherit + call_named)
     if diffs:
         STATS['mutations'] += 1
+        objs = dict(named)
+        for d in diffs:
+            o = objs.get(d['arg'])
+            d['ids'] = sorted(reachable_ids(o))
+            ext = ext_kind(o)
+            if ext is None and not isinstance(o, np.ndarray):
+                # object carrying a retained set: classify by the retained element the path starts with
+                for rn, ro in (_retained_of(o) or ()):
+                    if d['subpath'].startswith('.' + rn):
+                        ext = ext_kind(ro)
+                        break
+            if d['kind'] == 'fill_value':
+                ext = 'fill_value'
+            d['ext'] = ext
     if _collector is not None:
         _collector.append({'entry': entry, 'defn': defn, 'kind': kind, 'raised': raised,
                            'args': [(n, s.narrays, s.nbytes) for n, s in snaps.items()],
@@ -854,6 +915,8 @@ def _wrap_class(cls, done):
                         setattr(c, name, classmethod(_wrap_callable(f, defn, 'classmethod', name, True)))
                         n['methods'] += 1
                 elif inspect.isfunction(attr):
+                    if not str(getattr(attr, '__module__', '')).startswith('photutils'):
+                        continue        # e.g. operator dunders injected by astropy's model metaclass
                     kind = ('init' if name == '__init__' else 'call' if name == '__call__'
                             else 'dunder' if name.startswith('__') else 'method')
                     setattr(c, name, _wrap_callable(attr, defn, kind, name, True))
